@@ -32,7 +32,12 @@ pub fn def() -> PropDef {
 }
 
 fn streams(t: Tier) -> Vec<StreamDef> {
-    vec![st("history", t.n(3_000, 100_000, 6, 1_000), false), st("heap_rounds", t.n(400, 10_000, 0, 0), false), st("threads", t.n(160, 4_000, 2, 160), false)]
+    vec![
+        st("history", t.n(3_000, 100_000, 6, 1_000), false),
+        st("heap_rounds", t.n(400, 10_000, 0, 0), false),
+        st("threads", t.n(160, 4_000, 2, 160), false),
+        st("statics", t.n(400, 10_000, 0, 0), false),
+    ]
 }
 
 fn floors(t: Tier) -> Vec<(String, u64)> {
@@ -42,6 +47,8 @@ fn floors(t: Tier) -> Vec<(String, u64)> {
     let mut f: Vec<(String, u64)> = vec![("calls.executed".into(), 100_000), ("history.lists".into(), 1000), ("thread.switches".into(), 1000), ("thread.results_compared".into(), 10_000)];
     if t != Tier::San {
         f.push(("heap.rounds".into(), 300));
+        f.push(("heap.per_call_checks".into(), 10_000));
+        f.push(("statics.rounds".into(), 300));
     }
     for e in ENTRY_POINTS.iter() {
         f.push((format!("entry.{}", e), 200));
@@ -49,7 +56,7 @@ fn floors(t: Tier) -> Vec<(String, u64)> {
     f
 }
 
-pub const ENTRY_POINTS: [&str; 10] = ["decode_msg", "try_read", "decode_avps", "type_decoder", "encode_msg", "encode_avp", "get_length", "hide", "reveal", "error_display"];
+pub const ENTRY_POINTS: [&str; 12] = ["decode_msg", "try_read", "decode_avps", "type_decoder", "encode_msg", "encode_avp", "get_length", "hide", "reveal", "error_display", "encode_refused", "decode_seam_reader"];
 
 #[derive(Clone, Debug)]
 pub enum Call {
@@ -63,6 +70,11 @@ pub enum Call {
     Hide(SAvp, Vec<u8>, [u8; 4], Vec<u8>, [u8; 16]),
     Reveal(u16, Vec<u8>, Vec<u8>, [u8; 4]),
     ErrorDisplay(u8, u16),
+    /// an encode that the codec must refuse (oversize AVP inside a message, or a writer that runs
+    /// out of room after `cap` octets)
+    EncodeRefused(SMsg, Option<usize>),
+    /// decode through a reader whose bytes() declines across a seam
+    DecodeSeam(Vec<u8>, usize),
 }
 
 impl Call {
@@ -78,6 +90,8 @@ impl Call {
             Call::Hide(..) => 7,
             Call::Reveal(..) => 8,
             Call::ErrorDisplay(..) => 9,
+            Call::EncodeRefused(..) => 10,
+            Call::DecodeSeam(..) => 11,
         }
     }
 }
@@ -174,6 +188,28 @@ pub fn exec_call(c: &Call) -> u64 {
             None => 0,
         },
         Call::Reveal(attr, v, s, rv) => digest(&exec::reveal(exec::hidden_exact(*attr, v), s, *rv)),
+        Call::EncodeRefused(m, cap) => match glue::msg_to_crate(m) {
+            Some(cm) => match cap {
+                None => match exec::encode_msg(&cm, Wk::Vec) {
+                    exec::EncOut::Ok(e) => hash_bytes(19, &e.bytes),
+                    exec::EncOut::Panic(p) => hash_bytes(19, p.class().as_bytes()),
+                },
+                Some(cap) => {
+                    let cap = *cap;
+                    match crate::monitor::panic::catch(move || {
+                        let mut w = crate::monitor::writer::BoundedWriter::new(cap);
+                        cm.write(&mut w);
+                        w.data
+                    }) {
+                        crate::monitor::panic::Ended::Returned(d) => hash_bytes(19, &d),
+                        crate::monitor::panic::Ended::Panicked(p) => hash_bytes(19, p.class().as_bytes()),
+                        _ => 2,
+                    }
+                }
+            },
+            None => 0,
+        },
+        Call::DecodeSeam(b, seam) => digest(&exec::decode_msg_seam(b, *seam, None)),
         Call::ErrorDisplay(k, x) => {
             let e = error_variant(*k, *x);
             match crate::monitor::panic::catch(|| format!("{}|{:?}", e, e)) {
@@ -251,6 +287,24 @@ pub fn gen_call(r: &mut crate::gen::Rng, entry: usize) -> Call {
                 Call::Reveal(7, v, secret, rv)
             }
         }
+        10 => {
+            let mut c = val::control(r, 4, 40);
+            if c.avps.is_empty() {
+                c.avps.push(val::avp_of(r, 0, 8));
+            }
+            if r.bool() {
+                let at = 1 + r.below(c.avps.len() as u64) as usize;
+                c.avps.insert(at, SAvp { attr: 7, hidden: false, body: SBody::Bytes(r.bytes_range(1018, 1060)) });
+                Call::EncodeRefused(SMsg::Control(c), None)
+            } else {
+                Call::EncodeRefused(SMsg::Control(c), Some(r.range(0, 30) as usize))
+            }
+        }
+        11 => {
+            let w = wire::valid_message(r);
+            let seam = r.below(w.bytes.len() as u64 + 1) as usize;
+            Call::DecodeSeam(w.bytes, seam)
+        }
         _ => Call::ErrorDisplay(r.below(27) as u8, if r.bool() { r.range(0, 45) as u16 } else { r.u16b() }),
     }
 }
@@ -258,7 +312,7 @@ pub fn gen_call(r: &mut crate::gen::Rng, entry: usize) -> Call {
 pub fn gen_list(r: &mut crate::gen::Rng, n: usize) -> Vec<Call> {
     (0..n)
         .map(|i| {
-            let e = if i < 10 { i } else { r.below(10) as usize };
+            let e = if i < 12 { i } else { r.below(12) as usize };
             gen_call(r, e)
         })
         .collect()
@@ -273,7 +327,7 @@ fn note_entries(ctx: &mut Ctx, calls: &[Call], times: u64) {
 
 fn history_case(ctx: &mut Ctx) {
     let miri = ctx.tier == Tier::Miri;
-    let n = if miri { 10 } else { ctx.rng.range(10, 24) as usize };
+    let n = if miri { 12 } else { ctx.rng.range(12, 26) as usize };
     let calls = gen_list(&mut ctx.rng, n);
     let unrelated = gen_list(&mut ctx.rng, 10);
     let key = format!("{:?}", calls);
@@ -339,7 +393,28 @@ fn heap_case(ctx: &mut Ctx) {
         }
     }
     let after = alloc::snapshot();
+    // per-call baseline: once everything has been executed before (one-time initialisation is
+    // over), each call must hand back every octet it allocated by the time it has returned and
+    // its result has been dropped; anything that stays (a cache entry, a memo, a grown scratch
+    // buffer) is state kept between calls
+    let mut retained: Vec<(usize, i64, i64)> = Vec::new();
+    for (i, c) in calls.iter().enumerate() {
+        let b = alloc::snapshot();
+        acc ^= exec_call(c);
+        let a = alloc::snapshot();
+        if a.live_bytes != b.live_bytes || a.live_blocks != b.live_blocks {
+            retained.push((i, a.live_bytes - b.live_bytes, a.live_blocks - b.live_blocks));
+        }
+    }
     alloc::set_tracking(false);
+    ctx.rep.bucket_n("heap.per_call_checks", calls.len() as u64);
+    if let Some((i, db, dk)) = retained.first() {
+        ctx.violate(
+            format!("C19:heap-retained-after-call:{}", ENTRY_POINTS[calls[*i].entry()]),
+            format!("after warm-up, call #{} ({}) returned with the live heap changed by {} bytes / {} blocks although its result was dropped ({} of {} calls in this list do so): the codec keeps data between calls", i, ENTRY_POINTS[calls[*i].entry()], db, dk, retained.len(), calls.len()),
+            J::obj(vec![("call", J::s(format!("{:?}", calls[*i]).chars().take(300).collect::<String>()))]),
+        );
+    }
     std::hint::black_box(acc);
     ctx.rep.bucket("heap.rounds");
     ctx.rep.bucket_n("heap.allocations_observed", after.total_allocs - before.total_allocs);
@@ -423,8 +498,116 @@ fn thread_case(ctx: &mut Ctx) {
     ctx.rep.sample(|| J::obj(vec![("threads", J::U(n_threads as u64)), ("calls_per_thread", J::U(calls.len() as u64)), ("observed_thread_switches", J::U(switches)), ("distinct_adjacent_thread_pairs", J::U(pairs.len() as u64))]));
 }
 
+/// M6: writable `rl2tp::` statics and thread-locals of the linked worker (located by the
+/// supervisor with nm/readelf and passed in VP_WATCH) are snapshotted at quiescent points.
+struct Watch {
+    name: String,
+    addr: usize,
+    size: usize,
+}
+
+fn watches() -> Vec<Watch> {
+    let spec = match std::env::var("VP_WATCH") {
+        Ok(s) if !s.is_empty() => s,
+        _ => return vec![],
+    };
+    // load base of the executable: start of its first mapping
+    let exe = std::fs::read_link("/proc/self/exe").ok().map(|p| p.to_string_lossy().to_string()).unwrap_or_default();
+    let maps = std::fs::read_to_string("/proc/self/maps").unwrap_or_default();
+    let mut base = 0usize;
+    for line in maps.lines() {
+        if line.ends_with(&exe) {
+            if let Some(a) = line.split('-').next() {
+                base = usize::from_str_radix(a, 16).unwrap_or(0);
+            }
+            break;
+        }
+    }
+    // thread pointer (x86-64 variant II TLS: the executable's block ends at the thread pointer)
+    let tp: usize;
+    #[cfg(all(target_arch = "x86_64", not(miri)))]
+    unsafe {
+        std::arch::asm!("mov {}, fs:0", out(reg) tp);
+    }
+    #[cfg(not(all(target_arch = "x86_64", not(miri))))]
+    {
+        tp = 0;
+    }
+    let (tls_memsz, tls_align) = {
+        let v = std::env::var("VP_TLS").unwrap_or_default();
+        let mut p = v.split(':');
+        (p.next().and_then(|x| x.parse::<usize>().ok()).unwrap_or(0), p.next().and_then(|x| x.parse::<usize>().ok()).unwrap_or(1).max(1))
+    };
+    let tls_block = (tls_memsz + tls_align - 1) / tls_align * tls_align;
+    let mut out = Vec::new();
+    for item in spec.split(';') {
+        let f: Vec<&str> = item.splitn(4, ':').collect();
+        if f.len() != 4 {
+            continue;
+        }
+        let value = usize::from_str_radix(f[1], 16).unwrap_or(0);
+        let size = f[2].parse::<usize>().unwrap_or(0);
+        if size == 0 || size > 4096 {
+            continue;
+        }
+        let addr = match f[0] {
+            "S" if base != 0 => base + value,
+            "T" if tp != 0 && tls_block != 0 => tp - tls_block + value,
+            _ => continue,
+        };
+        out.push(Watch { name: f[3].to_string(), addr, size });
+    }
+    out
+}
+
+fn snapshot(ws: &[Watch]) -> Vec<Vec<u8>> {
+    ws.iter().map(|w| unsafe { std::slice::from_raw_parts(w.addr as *const u8, w.size).to_vec() }).collect()
+}
+
+fn statics_case(ctx: &mut Ctx) {
+    let ws = watches();
+    ctx.rep.bucket("statics.rounds");
+    ctx.rep.bucket_n("statics.symbols_watched", ws.len() as u64);
+    let calls = gen_list(&mut ctx.rng, 30);
+    let other = gen_list(&mut ctx.rng, 30);
+    ctx.rep.case(format!("st{:?}", calls).as_bytes(), true);
+    if ws.is_empty() {
+        // nothing writable under rl2tp:: in this binary: nothing to snapshot (still counted)
+        note_entries(ctx, &calls, 1);
+        for c in calls.iter() {
+            let _ = exec_call(c);
+        }
+        return;
+    }
+    // warm-up: everything once (lazy one-time initialisation is allowed)
+    for c in calls.iter().chain(other.iter()) {
+        let _ = exec_call(c);
+    }
+    let s0 = snapshot(&ws);
+    for c in calls.iter() {
+        let _ = exec_call(c);
+    }
+    let s1 = snapshot(&ws);
+    for c in other.iter() {
+        let _ = exec_call(c);
+    }
+    let s2 = snapshot(&ws);
+    note_entries(ctx, &calls, 3);
+    for (i, w) in ws.iter().enumerate() {
+        if s0[i] != s1[i] || s1[i] != s2[i] {
+            let short: String = w.name.chars().take(90).collect();
+            ctx.violate(
+                format!("C19:static-state-changes:{}", short),
+                format!("the {}-octet writable object {} of the codec changed between quiescent points after warm-up ({} -> {} -> {}): state is kept between calls", w.size, w.name, crate::report::hex(&s0[i][..w.size.min(24)]), crate::report::hex(&s1[i][..w.size.min(24)]), crate::report::hex(&s2[i][..w.size.min(24)])),
+                J::obj(vec![("symbol", J::s(w.name.clone())), ("size", J::U(w.size as u64))]),
+            );
+        }
+    }
+}
+
 fn run(ctx: &mut Ctx) {
     match ctx.stream {
+        "statics" => statics_case(ctx),
         "history" => history_case(ctx),
         "heap_rounds" => heap_case(ctx),
         "threads" => thread_case(ctx),
